@@ -28,62 +28,62 @@ CHECKS = {
             "explicit enumeration of reweighting transitions: synthetic history lattice x parameters on the real Reweighter, plus every reachable transition of deviation-bounded runs, against a reference MIS model",
             "One real Reweighter.run() transition is executed from every state of a finite lattice of histories x (n_particles, ess_ratio, ESS / volume-variation target) and from "
             "every reachable state of runs whose per-iteration random tape deviates in <=1 (quick) / <=2 (thorough) places from the default, over a covering array of the schedule-relevant options; "
-            "monotonicity, range, the ESS guarantee on every advance and the coherence of recorded beta/ESS/logZ/weights are checked on each transition.",
+            "monotonicity, range, the ESS guarantee on every advance and the coherence of recorded beta/ESS/logZ/weights are checked on each transition. Also: a boundary-value family placing the ESS crossing (and beta_prev) inside the last BETA_TOLERANCE cell, every sequence of scripted batch types (depth 4/5) through ONE Reweighter instance, and a kernel-input coherence monitor (temperature/kernel/boundaries passed to the mutation kernel).",
             "Trusted: the float reference implementation of the mixture formula (cross-checked against the decimal one by C04). Run-level exploration branches over a finite tape alphabet, not over all real-valued draws.",
             "DESIGN.md §4 C05"),
     "C06": ("model_checking",
             "exhaustive enumeration of the random-offset partition (exact rational breakpoints) per (n,w) lattice point; all m^n multinomial answers",
             "Every cell of the exact partition of the uniform offset u0 and the doubles adjacent to every breakpoint are executed on the real "
             "systematic_resample for every (n,w) of a lattice (all compositions of 12 into <=4/5 parts, float-hostile families, in-/out-of-tolerance "
-            "sum perturbations); the multinomial path is decided by enumerating every answer of the scripted np.random.choice and comparing the recorded law.",
+            "sum perturbations); the multinomial path is decided by enumerating every answer of the scripted np.random.choice and comparing the recorded law. The same partition is also driven through the Resampler.run call site (exact zeros, in-tolerance deficits), and a session phase (one sampler through save/load/iterate sequences) checks that resampled particles always come from the current pool.",
             "Trusted: the rational reference model (mc/refmodels/resample.py), numpy's own choice() implementing the multinomial law it is asked for; "
             "bounded to n*m<=700 (quick)/2500 (thorough).", "DESIGN.md §4 C06"),
     "C07": ("model_checking",
             "complete small-scope enumeration of accept masks / -inf masks / replacement answers on the real kernels and mutation step, plus a record-coherence monitor on every step boundary of deviation-bounded runs over a covering array",
             "All 2^6 accept-mask sequences (3 walkers x 2 steps) of both real kernels for every boundary/prior/blob/cluster-count variant, all -inf masks and replacement-index answers of the prior-sampling "
             "mutation (n<=4), and every step-boundary particle set, committed batch and posterior() return of every run in the deviation-bounded tree are checked row by row against pure fixtures "
-            "(x=T(u), logL=f(x), blob=b(x), u in the cube, whole-record moves, append-only history).",
+            "(x=T(u), logL=f(x), blob=b(x), u in the cube, whole-record moves, append-only history). A session phase drives one sampler object through every save/load/iterate sequence (depth 5/7 + longer roll-back patterns) with the monitors and an accessor oracle (flattened histories, posterior weights, evidence, trimming) after every operation.",
             "Trusted: purity/injectivity of the fixtures. Pipeline layer covers option combinations pairwise (quick) / 3-wise (thorough) and a two-symbol tape alphabet per iteration.",
             "DESIGN.md §4 C07"),
     "C08": ("fault_enumeration",
             "crash-point enumeration over the logged raw I/O operations of the real save path on an in-memory file system (every prefix x torn-write offsets), plus restore/resume exploration from every checkpoint of deviation-bounded runs",
             "The real save code runs over an in-memory file system that logs create/write/close/fsync/rename; for a first and an overwriting save in each configuration, every prefix of the log and every torn offset of the in-flight write "
             "is materialised as a crash image whose final name must hold nothing, the complete old or the complete new checkpoint; every checkpoint k written during real runs (clustering, blobs, pool object / real pool, kernel, resampler, progress bar, "
-            "picklable and un-picklable stderr) is loaded into a fresh sampler (bit-equal current+history, n_total) and resumed (numbering k+1, calls, schedule, immutable prefix, run post-conditions).",
+            "picklable and un-picklable stderr) is loaded into a fresh sampler (bit-equal current+history, n_total) and resumed (numbering k+1, calls, schedule, immutable prefix, run post-conditions). Crash points are enumerated for every checkpoint written by run(save_every)/sample(save_every) themselves as well as for save_state(); every resumed run is also resumed with a 3x larger n_total.",
             "Trusted: the process-crash model (completed writes persist, in-flight write torn, buffers lost; no power-loss reordering); I/O is intercepted at open/os/pathlib as resolved by tempest.core and tempest.state_manager.", "DESIGN.md §4 C08"),
     "C09": ("model_checking",
             "explicit-state search over all sequences of library operations up to a depth, each executed from two pre-seeds on the real global generator plus once under an auditing tape; triple-run reproducibility over a covering array",
             "All sequences (depth 2 quick / 3 thorough) over 19 public operations (mixture fits, hierarchical fit/predict, mode statistics, Student-t fit, trimming, resampling, the four pipeline steps, sample(), run(), posterior(resample), save, load) "
             "are executed from pre-seeds 101 and 202: the generator state and the next draws afterwards must differ, and no library frame may call np.random.seed when no Sampler random_state is configured; every configuration x random_state "
-            "is run three times in one process (back to back, and after disturbing the global stream) and must be bit-identical, different seeds must differ; inside clustering runs the generator state after every iteration must depend on the pre-seed.",
+            "is run three times in one process (back to back, and after disturbing the global stream) and must be bit-identical, different seeds must differ; inside clustering runs the generator state after every iteration must depend on the pre-seed. A seeding-discipline phase audits every np.random.seed / default_rng call made by library frames during runs with and without random_state, cluster cadences 1-3 and periodic checkpoints.",
             "Trusted: numpy's legacy global generator semantics. Seeding from the user's own Sampler random_state is treated as legitimate.", "DESIGN.md §4 C09"),
     "C10": ("model_checking",
             "paired exploration: every run of a tape-deviation tree is executed twice (log-likelihood f and f+c) under the same owned tape and the two executions are compared at every step boundary (commuting-diagram oracle)",
             "For every configuration of a covering array, every shift c in {-1e3,-37.25,0.5,64,1e3} (3 of them in quick) and every tape with <=1 per-iteration deviation, the real sampler is run with f and f+c; after each of the five pipeline steps of "
-            "each iteration beta, labels, counters, particle coordinates, normalised weights and ESS must agree (to rounding) and every recorded log-evidence must differ by beta*c; the final evidence by c.",
+            "each iteration beta, labels, counters, particle coordinates, normalised weights and ESS must agree (to rounding) and every recorded log-evidence must differ by beta*c; the final evidence by c. A transition-level commuting diagram (one real reweighting step from a state and from its shifted image) covers beta_prev values inside the last tolerance cell; weak and tight-volume-variation targets are in the lattice.",
             "Trusted: tolerances stated in evidence. A discrete mismatch is only reported if it reproduces on an independent tape (a floating tie does not).", "DESIGN.md §4 C10"),
     "C11": ("model_checking",
             "exhaustive enumeration of -inf mask sequences over the warm-up iterations (scripted prior draws and replacement answers) on the real Sampler.sample(), with a step-boundary monitor",
             "All sequences of zero-likelihood masks (m_1..m_W) in ({0,1}^n)^W for n in {2,3,4} and W in {1..4} warm-up iterations (W forced through ess_ratio), plus all replacement-index answers for small n, are executed through the real "
             "iteration loop: no -inf log-likelihood may be stored at any step boundary, each beta=0 batch's recorded logZ must lie within [min,max] of the per-batch log supported fractions seen so far (counted once), and for a constant-on-support "
-            "likelihood the first annealing iteration must jump to beta=1 with its evidence inside the same interval.",
+            "likelihood the first annealing iteration must jump to beta=1 with its evidence inside the same interval. Includes float32 likelihood / prior-transform variants, redrawn all -inf batches, and annealing iterations with Metropolis uniforms scripted to 0.",
             "Trusted: the interval oracle accepts per-batch, pooled and harmonic-pooled estimators. The statistical half of the property (convergence of the final evidence) is outside this family (see C02).", "DESIGN.md §4 C11"),
     "C12": ("model_checking",
             "terminal-state exploration of deviation-bounded runs over a covering array; exhaustive product of posterior() options x trimming parameters x scripted resampling offsets on every terminal state, against the reference MIS model",
             "Every terminal state reached by the real run() with <=1 tape deviation per configuration (pairwise/3-wise covering array of kernel, resampler, clustering, metric, evaluation, boundary, n_total, ess_ratio, target) "
             "is checked for |1-beta|<1e-4, reference ESS>=n_total and evidence()==reference logZ(1); then all 16 flag combinations of posterior() x 4 trimming settings x scripted offsets are executed and checked for arity, "
-            "equal lengths, normalised/uniform weights and row-by-row alignment of x, logL, blob and log-weight with the stored particles.",
+            "equal lengths, normalised/uniform weights and row-by-row alignment of x, logL, blob and log-weight with the stored particles. Plus a termination-threshold phase (n_total just above every posterior ESS the run passes through), resume with a larger n_total, and a session phase for posterior()/evidence() after save/load/iterate sequences.",
             "Trusted: float reference MIS model, pure fixtures. The per-configuration run cap is reported in evidence when hit.", "DESIGN.md §4 C12"),
     "C13": ("model_checking",
             "schedule enumeration: every permutation of the evaluation/completion order of a likelihood batch at every pool.map call of a run (bounded number of deviating calls), differential comparison of step-boundary state digests across evaluation modes under one tape",
             "For one owned random tape the real sampler is run scalar, vectorised, through ordered / lazy / out-of-order pool objects (all 3! / 4! batch permutations at each map call, <=1 deviating call quick, <=2 thorough) "
-            "and through real worker pools of size 1-3; after every pipeline step the complete state digest must equal the serial run's, the final evidence must be bit-identical and `calls` must equal the instrumented evaluation counter.",
+            "and through real worker pools of size 1-3; after every pipeline step the complete state digest must equal the serial run's, the final evidence must be bit-identical and `calls` must equal the instrumented evaluation counter. The mode lattice includes bound log_likelihood_args/kwargs, a likelihood with a thin support (discarded warm-up batches) and a corner target with 1-3 walkers.",
             "Trusted: purity of the fixture likelihood. Real pool internals are observed, not scheduled.", "DESIGN.md §4 C13"),
     "C14": ("model_checking",
             "environment-answer enumeration with a scripted clusterer (all predicted-label vectors incl. missing labels) through the real Trainer/Resampler/kernel; real-clusterer pool lattice x systematic offsets; cadence x warm-up x cap x resume-from-every-checkpoint exploration with a kernel-entry monitor",
             "All label vectors {0..K-1}^m a K-cluster model can answer for the training pool (m in 4..6, K in 2..3) x all label vectors for 3 resampled particles are pushed through the real Trainer.run / Resampler.run / kernel entry: every label must index an existing valid mode "
             "and that mode must equal the single-cluster fit of exactly the training points with that label; the real clusterer is run on a lattice of weighted blob pools (trimming removes whole blobs) over the systematic-offset partition; "
-            "real runs over cluster_every in {1,2,3,4,5,7} x warm-up length x kernel x normalize x cap (equal and dying modes) are monitored at every kernel entry and resumed from every checkpoint into a fresh sampler.",
+            "real runs over cluster_every in {1,2,3,4,5,7} x warm-up length x kernel x normalize x cap (equal and dying modes) are monitored at every kernel entry and resumed from every checkpoint into a fresh sampler. A session phase drives one clustering sampler through save/load/iterate patterns with the monitor armed.",
             "Trusted: C19 (a Student-t location lies in the bounding box of its data) for the pipeline-level 'same cluster' oracle. Pools and targets outside the lattice are not explored.", "DESIGN.md §4 C14"),
     "C15": ("exploration",
             "exhaustive enumeration of a deterministic data lattice x weight lattice x model options on the real mixture / hierarchical models under an owned tape, with invariants and a replication-equivalence differential oracle",
@@ -95,18 +95,18 @@ CHECKS = {
             "exhaustive enumeration of a structured-double lattice x all strict/periodic/reflective coordinate assignments against an exact rational fold",
             "Every value of a ~1.3k-point lattice of doubles (signed zeros, subnormals, every binade edge 2^-60..2^70 and up to 2^1023 with ulp neighbours, integers/halves/quarters with ulp neighbours, 2^53 and 2^63 edges, 1e300) "
             "is placed in every coordinate of 1-D (d<=3) and 2-D arrays under every one of the 3^d role assignments; results are compared with the exact rational mod-1 / triangle fold, idempotence, untouched strict coordinates, "
-            "unmodified input and the exact truth table of check_bounds.",
+            "unmodified input and the exact truth table of check_bounds. A kernel-usage phase runs the real kernels over every ordered pair of boundary configurations in one process (3 walkers, expected positions from first principles).",
             "Trusted: Python Fraction arithmetic. Doubles outside the lattice are represented by their binade/neighbourhood class only. The 'symmetric proposal o fold is symmetric' consequence is decided under C03.", "DESIGN.md §4 C16"),
     "C17": ("model_checking",
             "explicit-state exploration of all public-operation sequences up to a depth on the real StateManager next to a deep-copy reference model, with np.shares_memory and caller-side overwrites after every accessor; twin-run differential oracle at sampler level",
             "All sequences over 22 public operations (setters, commit, every getter, results, weights, export, import, save/load) up to depth 4 (quick) / 5 (thorough) are replayed on a fresh real object; after every accessor the returned arrays must not share memory "
             "with any internal array and are overwritten by the caller, after every operation internal state and cache must equal the deep-copy model; commits must grow each recorded history by exactly one batch. Sampler layer: all accessor sequences (depth 2/3) between real iterations, "
-            "with overwrites, must leave later iterations bit-identical to an untouched twin run.",
+            "with overwrites, must leave later iterations bit-identical to an untouched twin run. 'Internal arrays' are all ndarrays reachable from the objects' attributes (any cache); the alphabets include every posterior() option combination and save_state(exclude=...).",
             "Trusted: the reference model (dict/list deep copies). copy=False setters are outside the property.", "DESIGN.md §4 C17"),
     "C18": ("model_checking",
             "exhaustive one-factor-at-a-time enumeration of invalid values over 4 base configurations; covering-array exploration (pairwise / 3-wise) of the constructor option product with complete real runs and delta-minimisation of failures",
             "All listed constraint violations x 4 valid bases must be rejected by the constructor with zero likelihood/prior calls; every row of a strength-2 (quick) / strength-3 (thorough) covering array over 14 constructor options "
-            "(incl. pool in {None,1,2,object}, save_every on an in-memory file system, cluster cadence and caps) must construct, run to completion and satisfy the run post-conditions.",
+            "(incl. pool in {None,1,2,object}, save_every on an in-memory file system, cluster cadence and caps) must construct, run to completion and satisfy the run post-conditions. Valid rows that write checkpoints are also resumed by a fresh sampler; the valid lattice includes three targets, three particle counts and two tapes.",
             "Trusted: covering-array generator (its tuple coverage is measured and reported). Higher-order interactions than the stated strength are not covered.", "DESIGN.md §4 C18"),
     "C19": ("exploration",
             "exhaustive enumeration of a deterministic data lattice x transformation-group lattice (scalings, translations, all coordinate permutations) with the untransformed fit as reference",
@@ -117,7 +117,7 @@ CHECKS = {
     "C20": ("exploration",
             "exhaustive enumeration of all weight vectors over a dynamic-range alphabet (length<=5) and structured long vectors against rational references; affine-map lattice for the volume metric",
             "All 37k weight vectors over {0,1e-300,1e-12,1e-3,1,3,1e8,1e300} of length 1-5 (plus long uniform/geometric/dominant/tempering/tied vectors up to 1e4) are checked for ESS in [1,N], exact value, scale and permutation invariance; "
-            "the trimming contract (upper set, order, alignment via identity samples, ESS fraction, normalisation) is checked for 4 ESS fractions x 3 bin counts; the volume metric is checked for non-negativity, weight-scale and affine invariance on a lattice of maps with condition number up to 1e6.",
+            "the trimming contract (upper set, order, alignment via identity samples, ESS fraction, normalisation) is checked for 4 ESS fractions x 3 bin counts; the volume metric is checked for non-negativity, weight-scale and affine invariance on a lattice of maps with condition number up to 1e6. Every trim_weights call made by real runs is checked against the contract (call-site phase); a session phase checks posterior(trim) against the current weights after save/load/iterate sequences.",
             "Trusted: Fraction reference for ESS. Inputs where the metric's own regularisation/clip branches are active are outside the invariance premise and are counted in evidence.", "DESIGN.md §4 C20"),
 }
 
